@@ -50,13 +50,28 @@ XfE(kind, items) ==
             [] kind = "dup"                  -> <<x, x>> \o rest
             [] kind = "dropdel"              -> IF IsDel(x[2]) THEN rest ELSE <<x>> \o rest
 \* ... the others change the array they were handed IN PLACE and return it (push / unshift / pop); they are
-\* defined on the whole page and are only used with parallelism 1
+\* defined on a whole sequence (see XfPage for what a parallel run hands to them)
 Xf(kind, items) ==
   IF items = <<>> THEN <<>>
   ELSE CASE kind = "pushfirst"   -> items \o <<items[1]>>
          [] kind = "unshiftlast" -> <<items[Len(items)]>> \o items
          [] kind = "popdrop"     -> SubSeq(items, 1, Len(items) - 1)
          [] OTHER                -> XfE(kind, items)
+
+\* An incremental run with parallelism p splits a page of n >= p entities into p consecutive chunks of
+\* ceil(n / p) (the last ones may be shorter or empty), transforms every chunk on its own and concatenates the
+\* results in chunk order.  For element-wise transforms this is the transform of the page; for the in-place ones
+\* it is not (each chunk gets its own push / unshift / pop).  Full syncs transform the page as a whole.
+RECURSIVE XfChunks(_, _, _, _, _)
+XfChunks(kind, items, ps, i, p) ==
+  IF i >= p THEN <<>>
+  ELSE LET n == Len(items)
+           lo == i * ps + 1
+           hi == IF (i + 1) * ps < n THEN (i + 1) * ps ELSE n
+       IN Xf(kind, IF lo > hi THEN <<>> ELSE SubSeq(items, lo, hi)) \o XfChunks(kind, items, ps, i + 1, p)
+XfPage(j, items, full) ==
+  IF full \/ j.par <= 1 \/ Len(items) < j.par THEN Xf(j.xf, items)
+  ELSE XfChunks(j.xf, items, (Len(items) + j.par - 1) \div j.par, 0, j.par)
 
 \* the pump over ONE source member: read a page, transform, write, store token -- until an
 \* empty page.  st = [f, np, tok, calls, n, out, seen, done]
@@ -67,7 +82,7 @@ Pump(j, srcF, st, fault, t) ==
   LET pg == ChangesIn(srcF, st.tok, j.batch, j.lo) IN
   IF pg.items = <<>> THEN [st EXCEPT !.tok = pg.next]
   ELSE
-    LET items == Xf(j.xf, pg.items)
+    LET items == XfPage(j, pg.items, st.full)
         n == st.n + 1
     IN IF fault.k = "before" /\ fault.n = n
          THEN [st EXCEPT !.calls = Append(@, items), !.n = n, !.out = "failed"]
@@ -103,7 +118,7 @@ RunJob(ji, type, fault) ==
       si == dsInc[j.sink]
       full == type = "fullsync"
       start == [f |-> feed[si], np |-> nextPos[si], tok |-> 0, calls |-> <<>>, n |-> 0, out |-> "run",
-                seen |-> {}, done |-> 0]
+                seen |-> {}, done |-> 0, full |-> full]
       toks0 == IF full THEN [m \in 1..Len(j.src) |-> 0] ELSE jobTok[ji]
       pr == PumpAll(j, 1, start, toks0, fault, clock + 1)
       st == pr[1]
